@@ -994,7 +994,7 @@ func TestVerif_C13_e2eh1(t *testing.T) {
 	flows := []string{"single", "single", "single", "retry", "redirect"}
 	expectBudget := verifh.N(4, 80)
 	features := []string{"", "", "", "", "1xx", "long", "long-status", "many", "fold", "barelf", "nearly-long"}
-	n := verifh.N(160, 6000)
+	n := verifh.N(240, 6000)
 	var pend []*c13Pending
 	reqAsyncBudget := verifh.N(3, 60)
 	for c := 0; c < n; c++ {
@@ -1137,6 +1137,10 @@ func TestVerif_C13_e2eh1(t *testing.T) {
 			p.modelLine = "c13exp " + cfg.cl.modelArg() + " " + cfg.rq.modelArg() + " -"
 		}
 		pend = append(pend, p)
+		if len(pend) >= 200 { // judge in batches: the recorded dumps are large
+			c13Finish(t, s, pend)
+			pend = nil
+		}
 	}
 	c13Finish(t, s, pend)
 	for _, must := range []string{"flow=retry", "flow=redirect", "flow=expect-reject", "flow=expect-continue", "via-clone", "via-each-request", "feature=long", "feature=fold", "feature=many", "level=both", "client-async", "req-body-via-reader", "req-body-via-chunked", "baseline-ok"} {
